@@ -153,7 +153,6 @@ func (r *udpRun) checkMetrics(assocs []*assoc, outSocks []*simnet.UDPConn, owner
 			continue
 		}
 		S, tag := a.key.EK.SaltSize(), a.key.EK.TagSize()
-		bufMax := 64*1024 - (S + 19)
 		// replies actually sent to this client, by payload id, in order
 		sent := map[string][]int{}
 		for _, d := range r.w.Dgrams {
@@ -165,10 +164,7 @@ func (r *udpRun) checkMetrics(assocs []*assoc, outSocks []*simnet.UDPConn, owner
 		okCount := 0
 		for j, rd := range sk.ReadLog {
 			g := gotT[j]
-			wantA := len(rd.Payload)
-			if wantA > bufMax {
-				wantA = bufMax
-			}
+			wantA := sk.ReadNs[j] // what the read delivered (the server's buffer bounds it)
 			if g.A != int64(wantA) {
 				rc.Failf("from-target-payload-size", "association of %s, target datagram #%d: reported %d payload bytes, %d were received", rec.Client, j, g.A, wantA)
 			}
